@@ -282,8 +282,8 @@ def run(ctx):
         orig_take(out)
 
     ctx._take = take
-    ctx.pmap(job, configs(ctx.tier, ctx.seed))
-    ctx.pmap(driver_job, driver_configs(ctx.tier, ctx.seed))
+    ctx.pmap(job, configs(ctx.tier, ctx.seed), tasks_per_child=2)
+    ctx.pmap(driver_job, driver_configs(ctx.tier, ctx.seed), tasks_per_child=2)
     ctx._take = orig_take
     # cross-process bit reproducibility
     main = {}
